@@ -17,7 +17,11 @@ EXPLANATION = (
     "(k >= 1) is inside try/except IndexError, or is dominated -- including short-circuit order inside one boolean expression -- by a fact "
     "implying i + k < len(seq) (len(seq) > i + k', i + k == len(seq) false together with the entry invariant pos < len(s) of tokenizer "
     "actions, i == len(seq) - 1 false inside enumerate(seq)); T3 every explicit raise in parser.py is a ParseError subclass (or in the "
-    "reasoned table); T4 every tokenizer action returns a 2-tuple or raises on every path (never falls off its end)."
+    "reasoned table); T4 every tokenizer action returns a 2-tuple or raises on every path (never falls off its end); T5 the number regular expression (parsed with "
+    "re._parser) and the float/integer classifier agree; T6 printing side of the round trip: in Term.__repr__ the test that decides whether an operand of a "
+    "binary operator is parenthesised, evaluated for operand priority below / equal / above the operator's and the three operator types, leaves an "
+    "operand bare exactly when its priority is lower, or equal on the associative side (left for yfx, right for xfy); atoms and non-operator terms are "
+    "never parenthesised. Equality of the re-parsed term for all terms is not decided."
 )
 TECHNIQUE = "static analysis: CFG must-facts (length guards with short-circuit edges), table/range agreement"
 LEVEL_TEXT = EXPLANATION
@@ -511,6 +515,72 @@ def rule_t5(repo, col):
                "the hexadecimal branch must come before the float test: hex digits include 'e'/'E'", construct="_token_number: branch order", function="PrologParser._token_number")
 
 
+def rule_t6(repo, col):
+    """operator printing: an operand is printed without parentheses exactly when its priority allows it (xfx / xfy / yfx argument rules)"""
+    from .. import dtable
+
+    c = repo.cls("problog.logic", "Term")
+    f = c.methods.get("__repr__")
+    if f is None:
+        raise AnalysisError("Term.__repr__ missing")
+    m = f.module
+    found = {}
+    for n in ast.walk(f.node):
+        if not isinstance(n, ast.If):
+            continue
+        src = norm(n.test)
+        mm = re.search(r"\b(\w+)\.op_priority\b", src)
+        if not mm or "current.op_priority" not in src:
+            continue
+        operand = [x for x in re.findall(r"\b(\w+)\.op_priority\b", src) if x != "current"]
+        if len(set(operand)) != 1:
+            continue
+        operand = operand[0]
+        body_paren = any(isinstance(x, ast.Constant) and x.value == "(" for b in n.body for x in ast.walk(b))
+        else_paren = any(isinstance(x, ast.Constant) and x.value == "(" for b in n.orelse for x in ast.walk(b))
+        if body_paren == else_paren:
+            raise AnalysisError("Term.__repr__: parenthesis branches of operand %s not understood" % operand)
+        found[operand] = (n, body_paren)
+    if len(found) != 2:
+        raise AnalysisError("Term.__repr__: the two operand tests of the binary-operator branch were not found (%s)" % sorted(found))
+    # which operand is the left one: the first subscript args[0]
+    side = {}
+    for st in ast.walk(f.node):
+        if isinstance(st, ast.Assign) and isinstance(st.targets[0], ast.Name) and st.targets[0].id in found:
+            mm = re.match(r"^current\.args\[(\d)\]$", norm(st.value))
+            if mm:
+                side[st.targets[0].id] = "left" if mm.group(1) == "0" else "right"
+    if sorted(side.values()) != ["left", "right"]:
+        raise AnalysisError("Term.__repr__: operands of the binary operator not identified")
+    PC = 500
+    for operand, (node, body_paren) in sorted(found.items()):
+        which = side[operand]
+        bad = []
+        for spec in ("xfx", "xfy", "yfx"):
+            for pa in (PC - 100, PC, PC + 100):
+                mapping = [("isinstance(%s, Term)" % operand, True), ("%s.op_priority" % operand, pa), ("current.op_priority", PC), ("current.op_spec", spec)]
+                v = dtable.eval_atom(norm(node.test), mapping, default=None)
+                if v is None:
+                    raise AnalysisError("Term.__repr__: parenthesis test not decidable: %s" % norm(node.test)[:120])
+                parens = v if body_paren else (not v)
+                equal_ok = spec == ("yfx" if which == "left" else "xfy")
+                want_parens = not (pa < PC or (pa == PC and equal_ok))
+                if parens != want_parens:
+                    bad.append("%s operand of priority %s under a %s operator of priority %s: %s" % (which, pa, spec, PC, "parenthesised" if parens else "not parenthesised"))
+        col.decide("T6", m, node, not bad, "the %s operand is parenthesised exactly when the operator type requires it" % which,
+                   "Term.__repr__ prints the %s operand of a binary operator with the wrong grouping (%s): an operand of equal priority may stay bare only on the associative side "
+                   "(left for yfx, right for xfy), otherwise the printed text parses to a different term (a-(b-c) printed as a-b-c)" % (which, "; ".join(bad[:2])),
+                   construct="Term.__repr__: %s operand parentheses" % which, function="Term.__repr__")
+        # atoms / variables / numbers (no priority) are never parenthesised
+        for mapping, what in (([("isinstance(%s, Term)" % operand, False)], "a non-term operand"), ([("isinstance(%s, Term)" % operand, True), ("%s.op_priority" % operand, None)], "an operand that is not an operator term")):
+            v = dtable.eval_atom(norm(node.test), mapping + [("current.op_priority", PC), ("current.op_spec", "xfx")], default=None)
+            if v is None:
+                raise AnalysisError("Term.__repr__: parenthesis test not decidable for %s" % what)
+            parens = v if body_paren else (not v)
+            col.decide("T6", m, node, not parens, "%s is printed bare (%s side)" % (what, which), "Term.__repr__ parenthesises %s" % what,
+                       construct="Term.__repr__: %s operand, %s" % (which, what), function="Term.__repr__")
+
+
 def run(repo, col):
     col.rule("T1", "dispatch-table coverage of the tokenizer")
     col.rule("T2", "guard before look-ahead index")
@@ -522,3 +592,5 @@ def run(repo, col):
     rule_t3(repo, col)
     rule_t4(repo, col)
     rule_t5(repo, col)
+    col.rule("T6", "operator printing: parentheses by priority and associativity")
+    rule_t6(repo, col)
